@@ -68,6 +68,9 @@ Check(r, idx) ==
            /\ \E j \in DOMAIN evA : evA[j].c = "Overflow"
         THEN <<F(idx, "C07.overflow_within_maximum", <<r.sc.keys, r.sc.max, evA>>)>> ELSE <<>>)
     \o (IF r.status # 0 \/ r.wbuf # 0 THEN <<F(idx, "C14.pending", <<r.status, r.wbuf>>)>> ELSE <<>>)
+    \* C14: every call had returned, the cache reported no outstanding maintenance (status idle, write buffer empty), the policy's total
+    \* was above its maximum - and one explicit CleanUp brought it back: the bound was restored only by a further call
+    \o (IF r.preidle = 1 /\ r.preover = 1 /\ r.postover = 0 THEN <<F(idx, "C14.bound_restored_only_by_a_further_call", <<r.wsize, r.max, r.sc>>)>> ELSE <<>>)
     \* C05: policy bookkeeping agrees with the map
     \o (IF a1 # {} THEN <<F(idx, "C05.alive_iff_mapped", a1)>> ELSE <<>>)
     \o (IF a2 # {} THEN <<F(idx, "C05.linked_once", a2)>> ELSE <<>>)
